@@ -23,8 +23,8 @@ buildlib() { mkdir -p $2; ( cd $2 && for f in $(libsrc $1); do echo $f; done | x
 DEMO_CLEAN="n/a"; DEMO_PATCHED="n/a"
 if [ -f "$SD/demo.cpp" ]; then
   buildlib $S/clean $S/lc > $S/lc.log 2>&1; buildlib $S/patched $S/lp > $S/lp.log 2>&1
-  g++ -std=c++11 -O1 -w -I$S/clean -DMUSCLE_ENABLE_ZLIB_ENCODING $DEFS "$SD/demo.cpp" $S/lc/lib.a -lz -lutil -lpthread -o $S/demo_clean > $S/dc.log 2>&1
-  g++ -std=c++11 -O1 -w -I$S/patched -DMUSCLE_ENABLE_ZLIB_ENCODING $DEFS "$SD/demo.cpp" $S/lp/lib.a -lz -lutil -lpthread -o $S/demo_patched > $S/dp.log 2>&1
+  g++ -std=c++11 -O1 -w -I$S/clean -DMUSCLE_ENABLE_ZLIB_ENCODING $DEFS -I"$SD" "$SD/demo.cpp" $S/lc/lib.a -lz -lutil -lpthread -o $S/demo_clean > $S/dc.log 2>&1
+  g++ -std=c++11 -O1 -w -I$S/patched -DMUSCLE_ENABLE_ZLIB_ENCODING $DEFS -I"$SD" "$SD/demo.cpp" $S/lp/lib.a -lz -lutil -lpthread -o $S/demo_patched > $S/dp.log 2>&1
   if [ -x $S/demo_clean ]; then ( cd $S && timeout 120 ./demo_clean > $S/run_clean.txt 2>&1 ); DEMO_CLEAN=$?; else DEMO_CLEAN="build failed"; fi
   if [ -x $S/demo_patched ]; then ( cd $S && timeout 120 ./demo_patched > $S/run_patched.txt 2>&1 ); DEMO_PATCHED=$?; else DEMO_PATCHED="build failed"; fi
 elif [ -f "$SD/demo.py" ]; then
